@@ -41,7 +41,7 @@ class P(vlib.Prop):
     properties_file = "C12/Properties.v"
     instance_obligations = ["scheme_first_class_is_code", "scheme_rest_class_is_code", "scheme_pattern_shape_is_code",
                             "new_location_is_code", "find_uri_is_code", "replace_unescaped_is_code",
-                            "unescape_is_code", "max_rounds_is_code", "tables_are_populated"]
+                            "replace_count_is_code", "unescape_is_code", "max_expansions_is_code", "tables_are_populated"]
     harness_module = "C12.Harness"
     case_type = "wcase"
     shard = 50
@@ -52,7 +52,7 @@ class P(vlib.Prop):
     rule = ("Each case = one call of the real confmap.NewResolver(...).Resolve on generated sources and map-backed "
             "providers; recorded: the unsanitised result tree (expandedValue nodes), ToStringMap(), and Conf.Unmarshal of "
             "every top-level key into a string / int / []string / map[string]string field, or the error class. "
-            "Families: corpus (probe strings, F9/F11 strings, 1000 distinct references); tok: 450 well-formed token strings "
+            "Families: corpus (probe strings, F9/F11 strings, 150/1000 distinct references, which must resolve); tok: 450 well-formed token strings "
             "(char | } | $$ | lone $ | ${name}) over reference-free providers, with and without default scheme, checked "
             "ALSO by a token-level reference interpreter written in Go (direct oracle); wild: 550 grammar-soup strings "
             "(runs of 1-5 $, nested/adjacent/repeated/escaped references, unterminated ${, stray }, ${}, invalid and "
@@ -71,7 +71,8 @@ class P(vlib.Prop):
             "Resolver on the current values); the merge family lists the same source URI again in a third of its cases; "
             "scheme-shape: 70 references with generated schemes judged by the documented rule; "
             "1 guarded child-process probe of a "
-            "doubling reference cycle (memory watchdog 300 MiB, RLIMIT_AS 2 GiB, 180 s deadline). thorough = 12x. Non-trivial = every case except single-source merges; distinct = "
+            "doubling reference cycle (memory watchdog 300 MiB, RLIMIT_AS 2 GiB, 180 s deadline) that must be refused within "
+            "64 rounds; 12 growing cycles of length 1-3 (Go only) that must be refused. thorough = 12x. Non-trivial = every case except single-source merges; distinct = "
             "distinct case terms (duplicates are dropped by the harness).")
     trusted_base = [
         "Coq 8.16.1 kernel + vm_compute (coqc); no axioms (Print Assumptions: closed under the global context)",
@@ -127,7 +128,7 @@ class P(vlib.Prop):
             "lines": None, "sha256": hashlib.sha256(new.encode()).hexdigest(),
             "defines": ["C12Tables.go_scheme_first", "C12Tables.go_scheme_rest", "C12Tables.go_scheme_small",
                         "C12Tables.go_new_location", "C12Tables.go_find_uri", "C12Tables.go_replace",
-                        "C12Tables.go_unescape", "C12Tables.go_max_rounds"], "params": []})
+                        "C12Tables.go_replace_count", "C12Tables.go_unescape", "C12Tables.go_max_expansions", "C12Tables.go_cycle_rounds"], "params": []})
 
     CLAUSES = {1: "clause-token-meaning (expansion_refines_tokens_nested)",
                2: "clause-plain-text (no_reference_only_unescaped)",
@@ -153,7 +154,7 @@ class P(vlib.Prop):
         ctx.extra_coverage["clause_checker"] = {"fn": "C12.Clauses.prop_ok", "cases": len(terms), "violations": len(failed)}
         for i in failed[:6]:
             t = terms[i]
-            codes = vlib.coq_eval_term(ctx, "C12.Harness C12.Clauses", "clause_codes %s" % t) if len(t) < 60000 else "?"
+            codes = vlib.coq_eval_term(ctx, "C12.Harness C12.Clauses", "clause_codes %s" % t) if len(t) < 400000 else "?"
             import re as _re
             m = _re.search(r"\[([0-9; ]*)\]", codes.split("=", 1)[-1])
             ids = [int(x) for x in _re.findall(r"\d+", m.group(1))] if m else []
